@@ -197,8 +197,12 @@ def run(F, R):
         ex = nd.ctx.parent
         while ex is not None and not any(t.get("name") == "verify_response" for _, t in ex.bv.calls()):
             ex = ex.parent
-        if ex is not None:
+        if ex is None:
+            R.inconclusive("C03-R4", "send-consumes-build", "exchange function of the send not found")
+        else:
             mk = [t for _, t in ex.bv.calls() if t.get("callee_id") and (t["callee_id"] + "::{closure#0}") == nd.ctx.bv.id]
+            if not mk:
+                R.inconclusive("C03-R4", "send-consumes-build", "call of the send helper not found in the exchange function")
             if mk:
                 a = terms.render(ex.bv, ex.bv.trace_op(mk[0]["args"][1]), W, {}, transparent=T)
                 R.check("C03-R4", "send-consumes-build", a.startswith("build(") and a.endswith("@Continue.0.0"), a[:80], "the request sent is %s" % a[:100])
